@@ -5,7 +5,9 @@ Import ListNotations.
 Definition byte := nat.
 
 Inductive ppc := PWaitSlot | POpening | PWriting (rest : list byte) | PExited | PAudited | PReleased | PDone.
-Inductive cpc := CNone | CWaitSlot | COpening | CReading | CExited | CAudited (linked : bool) | CFinal | CReleased | CDone.
+(* CSkipOpen / CDraining: the consumer task found its outputs on disk, is skipped, and drains the pipe (drainStreamingInputs) *)
+Inductive cpc := CNone | CWaitSlot | COpening | CReading | CExited | CAudited (linked : bool) | CFinal | CReleased | CDone
+               | CSkipOpen | CDraining.
 
 Record st := {
   fifo : bool;               (* the named pipe exists in the directory *)
@@ -19,11 +21,12 @@ Record st := {
   outfile : option (list byte) (* consumer's finalised output *)
 }.
 
-Record cfg := { payload : list byte; pipecap : nat; slots : nat }.
+(* skip: the consumer's output exists before the run (a re-run of a completed workflow) and holds [old] *)
+Record cfg := { payload : list byte; pipecap : nat; slots : nat; skip : bool; old : list byte }.
 
 Definition init (c : cfg) : st :=
   {| fifo := true (* created by Process.Run before the task is spawned *); wclosed := false; buf := []; sent := []; got := [];
-     pp := PWaitSlot; cp := CNone; tokens := 0; paudit := false; outfile := None |}.
+     pp := PWaitSlot; cp := CNone; tokens := 0; paudit := false; outfile := if skip c then Some (old c) else None |}.
 
 Inductive act :=
 | AForward        (* the IP reaches the consumer, whose task is created *)
@@ -35,17 +38,25 @@ Inductive act :=
 
 Definition step (c : cfg) (s : st) (a : act) : option st :=
   match a with
-  | AForward => match cp s with CNone => Some {| fifo := fifo s; wclosed := wclosed s; buf := buf s; sent := sent s; got := got s; pp := pp s; cp := CWaitSlot; tokens := tokens s; paudit := paudit s; outfile := outfile s |} | _ => None end
+  | AForward => match cp s with CNone => Some {| fifo := fifo s; wclosed := wclosed s; buf := buf s; sent := sent s; got := got s; pp := pp s; cp := (if skip c then CSkipOpen else CWaitSlot); tokens := tokens s; paudit := paudit s; outfile := outfile s |} | _ => None end
   | PAcquire => match pp s with PWaitSlot => if Nat.ltb (tokens s) (slots c) then Some {| fifo := fifo s; wclosed := wclosed s; buf := buf s; sent := sent s; got := got s; pp := POpening; cp := cp s; tokens := S (tokens s); paudit := paudit s; outfile := outfile s |} else None | _ => None end
   | CAcquire => match cp s with CWaitSlot => if Nat.ltb (tokens s) (slots c) then Some {| fifo := fifo s; wclosed := wclosed s; buf := buf s; sent := sent s; got := got s; pp := pp s; cp := COpening; tokens := S (tokens s); paudit := paudit s; outfile := outfile s |} else None | _ => None end
-  | AOpenBoth => match pp s, cp s with POpening, COpening => Some {| fifo := fifo s; wclosed := false; buf := buf s; sent := sent s; got := got s; pp := PWriting (payload c); cp := CReading; tokens := tokens s; paudit := paudit s; outfile := outfile s |} | _, _ => None end
+  | AOpenBoth => match pp s, cp s with
+                 | POpening, COpening => Some {| fifo := fifo s; wclosed := false; buf := buf s; sent := sent s; got := got s; pp := PWriting (payload c); cp := CReading; tokens := tokens s; paudit := paudit s; outfile := outfile s |}
+                 | POpening, CSkipOpen => Some {| fifo := fifo s; wclosed := false; buf := buf s; sent := sent s; got := got s; pp := PWriting (payload c); cp := CDraining; tokens := tokens s; paudit := paudit s; outfile := outfile s |}
+                 | _, _ => None end
   | PWrite => match pp s with PWriting (b :: r) => if Nat.ltb (length (buf s)) (pipecap c) then Some {| fifo := fifo s; wclosed := wclosed s; buf := buf s ++ [b]; sent := sent s ++ [b]; got := got s; pp := PWriting r; cp := cp s; tokens := tokens s; paudit := paudit s; outfile := outfile s |} else None | _ => None end
   | PExit => match pp s with PWriting [] => Some {| fifo := fifo s; wclosed := true; buf := buf s; sent := sent s; got := got s; pp := PExited; cp := cp s; tokens := tokens s; paudit := paudit s; outfile := outfile s |} | _ => None end
   | PSetAudit => match pp s with PExited => Some {| fifo := fifo s; wclosed := wclosed s; buf := buf s; sent := sent s; got := got s; pp := PAudited; cp := cp s; tokens := tokens s; paudit := true; outfile := outfile s |} | _ => None end
   | PRelease => match pp s with PAudited => Some {| fifo := fifo s; wclosed := wclosed s; buf := buf s; sent := sent s; got := got s; pp := PReleased; cp := cp s; tokens := pred (tokens s); paudit := paudit s; outfile := outfile s |} | _ => None end
   | PDoneA => match pp s with PReleased => Some {| fifo := fifo s; wclosed := wclosed s; buf := buf s; sent := sent s; got := got s; pp := PDone; cp := cp s; tokens := tokens s; paudit := paudit s; outfile := outfile s |} | _ => None end
-  | CRead => match cp s, buf s with CReading, b :: r => Some {| fifo := fifo s; wclosed := wclosed s; buf := r; sent := sent s; got := got s ++ [b]; pp := pp s; cp := cp s; tokens := tokens s; paudit := paudit s; outfile := outfile s |} | _, _ => None end
-  | CEof => match cp s, buf s with CReading, [] => if wclosed s then Some {| fifo := fifo s; wclosed := wclosed s; buf := []; sent := sent s; got := got s; pp := pp s; cp := CExited; tokens := tokens s; paudit := paudit s; outfile := outfile s |} else None | _, _ => None end
+  | CRead => match cp s, buf s with
+             | CReading, b :: r | CDraining, b :: r => Some {| fifo := fifo s; wclosed := wclosed s; buf := r; sent := sent s; got := got s ++ [b]; pp := pp s; cp := cp s; tokens := tokens s; paudit := paudit s; outfile := outfile s |}
+             | _, _ => None end
+  | CEof => match cp s, buf s with
+            | CReading, [] => if wclosed s then Some {| fifo := fifo s; wclosed := wclosed s; buf := []; sent := sent s; got := got s; pp := pp s; cp := CExited; tokens := tokens s; paudit := paudit s; outfile := outfile s |} else None
+            | CDraining, [] => if wclosed s then Some {| fifo := fifo s; wclosed := wclosed s; buf := []; sent := sent s; got := got s; pp := pp s; cp := CDone; tokens := tokens s; paudit := paudit s; outfile := outfile s |} else None   (* io.Copy returns at EOF; Close; Done *)
+            | _, _ => None end
   | CAudit => match cp s with CExited => Some {| fifo := fifo s; wclosed := wclosed s; buf := buf s; sent := sent s; got := got s; pp := pp s; cp := CAudited (paudit s); tokens := tokens s; paudit := paudit s; outfile := outfile s |} | _ => None end
   | CFinalize => match cp s with CAudited l => Some {| fifo := fifo s; wclosed := wclosed s; buf := buf s; sent := sent s; got := got s; pp := pp s; cp := CFinal; tokens := tokens s; paudit := paudit s; outfile := Some (got s) |} | _ => None end
   | CRelease => match cp s with CFinal => Some {| fifo := fifo s; wclosed := wclosed s; buf := buf s; sent := sent s; got := got s; pp := pp s; cp := CReleased; tokens := pred (tokens s); paudit := paudit s; outfile := outfile s |} | _ => None end
@@ -60,20 +71,28 @@ Definition prest (p : ppc) (c : cfg) : list byte :=
   match p with PWaitSlot | POpening => payload c | PWriting r => r | _ => [] end.
 
 (* data invariant: nothing lost, nothing duplicated, order kept *)
+Definition c_after_eof (q : cpc) : bool := match q with CExited | CAudited _ | CFinal | CReleased | CDone => true | _ => false end.
+Definition c_finalized (q : cpc) : bool := match q with CFinal | CReleased | CDone => true | _ => false end.
+Definition c_skipping (q : cpc) : bool := match q with CNone | CSkipOpen | CDraining | CDone => true | _ => false end.
+Definition c_running (q : cpc) : bool := match q with CSkipOpen | CDraining => false | _ => true end.
+Definition p_unopened (p : ppc) : bool := match p with PWaitSlot | POpening => true | _ => false end.
+Definition p_writing (p : ppc) : bool := match p with PWaitSlot | POpening | PWriting _ => true | _ => false end.
+Definition c_unopened (q : cpc) : bool := match q with CNone | CWaitSlot | COpening | CSkipOpen => true | _ => false end.
+
 Definition DInv (c : cfg) (s : st) : Prop :=
   sent s ++ prest (pp s) c = payload c /\ got s ++ buf s = sent s /\
-  (match cp s with CExited | CAudited _ | CFinal | CReleased | CDone => buf s = [] /\ prest (pp s) c = [] /\ (match pp s with PWaitSlot | POpening | PWriting _ => False | _ => True end) | _ => True end) /\
-  (match outfile s with Some o => o = got s /\ (match cp s with CFinal | CReleased | CDone => True | _ => False end) | None => True end) /\
-  (match pp s with PWaitSlot | POpening => sent s = [] /\ (match cp s with CNone | CWaitSlot | COpening => True | _ => False end) | _ => True end) /\
-  (wclosed s = true -> match pp s with PWaitSlot | POpening | PWriting _ => False | _ => True end) /\
-  (match cp s with CFinal | CReleased | CDone => outfile s = Some (got s) | _ => True end).
+  (c_after_eof (cp s) = true -> buf s = [] /\ prest (pp s) c = [] /\ p_writing (pp s) = false) /\
+  (if skip c then outfile s = Some (old c) /\ c_skipping (cp s) = true
+   else c_running (cp s) = true /\ outfile s = if c_finalized (cp s) then Some (got s) else None) /\
+  (p_unopened (pp s) = true -> sent s = [] /\ c_unopened (cp s) = true) /\
+  (wclosed s = true -> p_writing (pp s) = false).
 
 Lemma init_dinv c : DInv c (init c).
-Proof. unfold DInv, init; simpl. repeat split; auto. discriminate. Qed.
+Proof. unfold DInv, init; simpl. repeat split; auto; try discriminate. destruct (skip c); auto. Qed.
 
 Lemma step_dinv c s a s' : DInv c s -> step c s a = Some s' -> DInv c s'.
 Proof.
-  unfold DInv. intros [H1 [H2 [H3 [H4 [H5 [H6 H7]]]]]].
+  unfold DInv. intros [H1 [H2 [H3 [H4 [H5 H6]]]]].
   destruct a; simpl; destruct (pp s) eqn:P; destruct (cp s) eqn:C; simpl in *; try discriminate;
     try (destruct (Nat.ltb _ _); try discriminate);
     try (destruct rest as [|b rest]; try discriminate);
@@ -82,10 +101,16 @@ Proof.
     try (destruct (fifo s); try discriminate);
     try (destruct (Nat.ltb _ _); try discriminate);
     intros E; injection E as <-; simpl; rewrite ?P, ?C; simpl;
-    repeat match goal with H : _ /\ _ |- _ => destruct H end;
-    repeat split; subst; auto; try tauto; try congruence;
+    destruct (skip c) eqn:K; simpl;
+    repeat match goal with
+           | H : _ /\ _ |- _ => destruct H
+           | H : true = true -> _ |- _ => specialize (H eq_refl)
+           | H : false = true |- _ => discriminate H
+           | H : true = false |- _ => discriminate H
+           end;
+    repeat split; subst; auto; try discriminate; try congruence;
+    try (intros; discriminate);
     try (rewrite <- ?app_assoc; simpl; auto; fail);
-    try (destruct (outfile s); tauto);
     try (rewrite ?app_nil_r in *; congruence);
     try (rewrite <- ?app_assoc in *; simpl in *; congruence);
     try (rewrite app_assoc; congruence);
@@ -100,15 +125,28 @@ Proof.
   - destruct (step c s a) as [s1|] eqn:S; [|discriminate]. apply (IH s1 s'); auto. apply (step_dinv c s a s1); auto.
 Qed.
 
-(* C17_bytes: whatever the schedule, payload size and pipe capacity, a consumer that
+(* C17_bytes: whatever the schedule, payload size and pipe capacity, a consumer that executed and
    finished has written exactly the producer's bytes *)
-Theorem C17_bytes c l s : run c (init c) l = Some s -> cp s = CDone -> outfile s = Some (payload c).
+Theorem C17_bytes c l s : skip c = false -> run c (init c) l = Some s -> cp s = CDone -> outfile s = Some (payload c).
 Proof.
-  intros R C. pose proof (run_dinv c l _ _ (init_dinv c) R) as [H1 [H2 [H3 [H4 [H5 [H6 H7]]]]]].
-  rewrite C in *. destruct H3 as [Hb [Hr _]]. rewrite H7. f_equal.
+  intros K R C. pose proof (run_dinv c l _ _ (init_dinv c) R) as [H1 [H2 [H3 [H4 [H5 H6]]]]].
+  rewrite K in H4. rewrite C in *. simpl in *. destruct (H3 eq_refl) as [Hb [Hr _]]. destruct H4 as [_ ->]. f_equal.
   rewrite Hb, app_nil_r in H2. rewrite Hr, app_nil_r in H1. congruence.
 Qed.
-Print Assumptions C17_bytes.
+
+(* re-run of a completed workflow: the consumer's output exists; whatever the schedule, it keeps its content in every
+   reachable state, and what the skipped consumer drained is what the producer wrote *)
+Theorem rerun_untouched c l s : skip c = true -> run c (init c) l = Some s -> outfile s = Some (old c).
+Proof.
+  intros K R. pose proof (run_dinv c l _ _ (init_dinv c) R) as [_ [_ [_ [H4 _]]]]. rewrite K in H4. apply H4.
+Qed.
+
+Theorem rerun_drained c l s : skip c = true -> run c (init c) l = Some s -> cp s = CDone -> got s = payload c /\ buf s = [].
+Proof.
+  intros K R C. pose proof (run_dinv c l _ _ (init_dinv c) R) as [H1 [H2 [H3 _]]].
+  rewrite C in *. simpl in *. destruct (H3 eq_refl) as [Hb [Hr _]].
+  rewrite Hb, app_nil_r in H2. rewrite Hr, app_nil_r in H1. split; congruence.
+Qed.
 
 Definition all_acts := [AForward; PAcquire; CAcquire; AOpenBoth; PWrite; PExit; PSetAudit; PRelease; PDoneA;
                         CRead; CEof; CAudit; CFinalize; CRelease; CDoneA; ARemoveFifo].
@@ -120,13 +158,13 @@ Definition linked (s : st) := match cp s with CAudited b => Some b | _ => None e
 Definition after c s0 l (f : st -> bool) := match run c s0 l with Some s => f s | None => false end.
 
 (* with a single slot the pair deadlocks (the property's own guard) *)
-Definition c1 := {| payload := [1;2;3]; pipecap := 2; slots := 1 |}.
+Definition c1 := {| payload := [1;2;3]; pipecap := 2; slots := 1; skip := false; old := [] |}.
 Example C17_one_slot_refuted :
   after c1 (init c1) [AForward; PAcquire] (fun s => stuck c1 s && negb (cp_done s)) = true.
 Proof. vm_compute. reflexivity. Qed.
 
 (* a complete run with two slots, payload longer than the pipe: bytes arrive, pipe removed *)
-Definition c2 := {| payload := [1;2;3]; pipecap := 2; slots := 2 |}.
+Definition c2 := {| payload := [1;2;3]; pipecap := 2; slots := 2; skip := false; old := [] |}.
 Example C17_run_ok :
   after c2 (init c2) [AForward; PAcquire; CAcquire; AOpenBoth; PWrite; PWrite; CRead; PWrite; PExit; CRead; CRead; CEof;
                       PSetAudit; CAudit; CFinalize; CRelease; CDoneA; PRelease; PDoneA; ARemoveFifo]
@@ -134,7 +172,7 @@ Example C17_run_ok :
 Proof. vm_compute. reflexivity. Qed.
 
 (* the audit link depends on who finishes first *)
-Definition c3 := {| payload := [1]; pipecap := 2; slots := 2 |}.
+Definition c3 := {| payload := [1]; pipecap := 2; slots := 2; skip := false; old := [] |}.
 Example C17_audit_race_refuted :
   (match run c3 (init c3) [AForward; PAcquire; CAcquire; AOpenBoth; PWrite; PExit; CRead; CEof; PSetAudit; CAudit] with Some s => linked s | None => None end) = Some true /\
   (match run c3 (init c3) [AForward; PAcquire; CAcquire; AOpenBoth; PWrite; PExit; CRead; CEof; CAudit; PSetAudit] with Some s => linked s | None => None end) = Some false.
